@@ -104,7 +104,33 @@ UncObs ==
              PTraj(2, <<USt("oriented", 4, 2, 2, u.q1, u), St("oriented", 5, 3, 2, 1)>>)) :
              sh \in {ShRect31, ShTri}, u \in UncSpecs}
 
-ObDescs == DynObs \cup StaObs \cup PhaObs \cup EnvObs \cup UncObs \cup OvlObs
+(* ---- set-based predictions whose stored occupancies hold for time INTERVALS --------------------------------- *)
+IvFam(f) ==        \* <<lo, hi>> relative to the first prediction step; lo = hi: a plain time step
+    CASE f = 1 -> <<<<0, 1>>, <<1, 2>>, <<2, 3>>, <<3, 4>>>>       \* touching, even count
+      [] f = 2 -> <<<<0, 1>>, <<1, 2>>, <<2, 3>>>>                  \* touching, odd count
+      [] f = 3 -> <<<<0, 3>>, <<2, 6>>>>                             \* overlapping
+      [] f = 4 -> <<<<0, 5>>, <<1, 2>>>>                             \* nested
+      [] f = 5 -> <<<<0, 1>>, <<3, 4>>>>                             \* disjoint, hole at 2
+      [] f = 6 -> <<<<0, 0>>, <<1, 3>>, <<3, 3>>>>                   \* plain steps mixed with an interval
+IvFams == 1..6
+IvOrd(ord, n) == [i \in 1..n |-> CASE ord = "asc" -> i [] ord = "desc" -> n + 1 - i [] OTHER -> (i % n) + 1]    \* "rot": 2, 3, .., n, 1
+IvShapes == <<ShRect31, ShTri, ShDisc, ShRect42>>
+IvOccs(f, ord, b) ==     \* b = first prediction step; the k-th interval of the family keeps its own shape and pose in every order
+    LET fam == IvFam(f)  n == Len(fam)  perm == IvOrd(ord, n)
+    IN [i \in 1..n |-> LET k == perm[i]  iv == fam[k]  base == [shape |-> IvShapes[k], pose |-> <<2 * k, 1 - k, k % 4>>]
+                       IN IF iv[1] = iv[2] THEN [t |-> b + iv[1], shape |-> base.shape, pose |-> base.pose]
+                          ELSE [t |-> b + iv[1], t2 |-> b + iv[2], shape |-> base.shape, pose |-> base.pose]]
+IvOb(id, role, t0, f, ord) ==
+    IF role = "phantom" THEN Phantom(id, t0, PSet(0, IvOccs(f, ord, t0 + 1)))
+    ELSE Ob(id, "dynamic", "truck", t0, ShRect42, St("initial", t0, 1, 2, 1), PSet(0, IvOccs(f, ord, t0 + 1)))
+IvOrds == {"asc", "desc", "rot"}
+IvObs == {IvOb(1, "dynamic", t0, f, ord) : t0 \in {0, 1}, f \in IvFams, ord \in IvOrds}
+         \cup {IvOb(1, "phantom", 0, f, ord) : f \in IvFams, ord \in IvOrds}
+IvScenarios ==     \* alone, and a dynamic + a phantom obstacle with different families / orders
+    {<<IvOb(11, role, 0, f, ord)>> : role \in {"dynamic", "phantom"}, f \in IvFams, ord \in IvOrds}
+    \cup {<<IvOb(11, "dynamic", 0, f, "asc"), IvOb(12, "phantom", 0, f2, "desc")>> : f \in IvFams, f2 \in IvFams}
+
+ObDescs == DynObs \cup StaObs \cup PhaObs \cup EnvObs \cup UncObs \cup OvlObs \cup IvObs
 
 (* ---- scenarios: subsets of a reduced descriptor set (distinct ids), with the query families ---------- *)
 Red(i) ==
@@ -194,17 +220,26 @@ Dummy == Phantom(0, 0, [k |-> "none"])
 NoMod == [k |-> "none", id |-> -1]
 Init == /\ t = 0
         /\ \/ mode = "ob" /\ o \in ObDescs /\ S = <<>> /\ md = NoMod
-           \/ mode = "sc" /\ o = Dummy /\ S \in Scenarios /\ md = NoMod
+           \/ mode = "sc" /\ o = Dummy /\ S \in Scenarios \cup IvScenarios /\ md = NoMod
            \/ mode = "hist" /\ o = Dummy /\ \E c \in HistCases : S = c[1] /\ md = c[2]
 Tick == t < TMax /\ t' = t + 1 /\ UNCHANGED <<mode, o, S, md>>
 Next == Tick
 Spec == Init /\ [][Next]_vars
 
 (* ---- laws of the per-obstacle operators --------------------------------------------------------------- *)
-LawSourceUnique == mode = "ob" => Cardinality(Sources(o, t)) <= 1                      \* the clauses never compete
+LawSourceUnique == mode = "ob" /\ ~HasIntervals(o) => Cardinality(Sources(o, t)) <= 1   \* the clauses never compete
+LawIntervals ==                                             \* stored intervals: every covering occupancy is admissible, nothing else
+    mode = "ob" /\ HasIntervals(o) =>
+        LET cov == {i \in DOMAIN o.pred.occs : o.pred.occs[i].t <= t /\ t <= (IF "t2" \in DOMAIN o.pred.occs[i] THEN o.pred.occs[i].t2 ELSE o.pred.occs[i].t)}
+            live == o.role = "phantom" \/ t > o.t0
+        IN /\ (o.role = "dynamic" /\ t = o.t0 => Sources(o, t) = {Src("Initial", 0)})
+           /\ (live => Sources(o, t) = {Src("SetOcc", i) : i \in cov})
+           /\ (live /\ cov # {} => AdmOccs(o, t) = {Placed(o.pred.occs[i].shape, o.pred.occs[i].pose) : i \in cov} /\ Occ(o, t) \in AdmOccs(o, t))
+           /\ (live /\ cov = {} => AdmOccs(o, t) = {NoneV} /\ ~InHorizon(o, t))
+           /\ (Cardinality(Sources(o, t)) > 1 => Centre(o, t).k = "EITHER")
 LawSourceTotal  == mode = "ob" => ((Sources(o, t) # {}) <=> InHorizon(o, t))           \* exactly one in, none outside
 LawHorizon ==                                               \* horizon = {t0} union [t0 + 1 + g, t0 + g + len]
-    mode = "ob" /\ o.role = "dynamic" =>
+    mode = "ob" /\ o.role = "dynamic" /\ ~HasIntervals(o) =>
         LET g == PredGap(o)  n == PredLen(o)
         IN /\ (Occ(o, t).k # "None") <=> (t = o.t0 \/ (t > o.t0 /\ o.t0 + 1 + g <= t /\ t <= o.t0 + g + n))
            /\ Source(o, o.t0).k = "Initial" /\ StateAt(o, o.t0) = o.init            \* also when the prediction overlaps t0
@@ -330,7 +365,8 @@ Case == IF mode = "hist"
         ELSE IF mode = "ob"
         THEN [kind |-> "ob", o |-> o, tmax |-> TMax,
               obl |-> {[t |-> tt, poses |-> Obligations(SrcState(o, tt))] : tt \in UncTimes(o)}]
-        ELSE [kind |-> "sc", S |-> S, tmax |-> 5, roles |-> QRoles, types |-> QTypes, ivs |-> QIvs,
-              rolesets |-> QRoleSets, times |-> QTimes]
+        ELSE [kind |-> "sc", S |-> S, tmax |-> IF \E i \in DOMAIN S : HasIntervals(S[i]) THEN 8 ELSE 5,
+              roles |-> QRoles, types |-> QTypes, ivs |-> QIvs, rolesets |-> QRoleSets,
+              times |-> IF \E i \in DOMAIN S : HasIntervals(S[i]) THEN <<2, 5, 6>> ELSE QTimes]
 Emit == t = 0 => PrintT(<<"CASE", ToJson(Case)>>)
 =================================================================================
